@@ -102,6 +102,33 @@ VIOL = [
     ("viol_quat_inverse_nonunit", "q1", "(r.q0 * 0.5).inverse()"),
     ("viol_from_mat3_scaled", "q1", "Quat::from_mat3(&(r.r0 * 2.0))"),
 ]
+# Ill-conditioned regions: when the INPUTS of an operation satisfy the predicate, its result is discontinuous or amplifies
+# rounding by more than 2^10 (angles through arccos near 0 / pi, axes of tiny rotations, arbitrary axes for opposite
+# vectors, sign switches, branch thresholds).  Bit-for-bit comparisons between builds (Trace_SameBits) are unaffected;
+# the SIMD-vs-scalar comparison with a rounding slack (Trace_Near) is suspended for the rest of such a chain.
+ILL = {
+    "s_from_angle_between": "r.u0.dot(r.u1).abs() > 0.9999",
+    "s_from_quat_angle": "r.q0.dot(r.q1).abs() > 0.9999",
+    "u_axis_of_quat": "r.q0.w.abs() > 0.9999",
+    "u_rotate_towards": "r.u0.dot(r.u1).abs() > 0.999",
+    "u_slerp": "r.u0.dot(r.u1) < -0.999",
+    "q_from_rotation_arc": "r.u0.dot(r.u1) < -0.999",
+    "q_from_rotation_arc_colinear": "r.u0.dot(r.u1).abs() < 1e-3",
+    "q_rotate_towards": "r.q0.dot(r.q1).abs() > 0.9999",
+    "u_any_orthonormal_vector": "r.u0.z.abs() < 1e-3", "u_any_orthonormal_pair_a": "r.u0.z.abs() < 1e-3", "u_any_orthonormal_pair_b": "r.u1.z.abs() < 1e-3",
+    "u_cross_pair": "r.u0.z.abs() < 1e-3", "q_look_to_rh": "r.u0.z.abs() < 1e-3", "q_look_to_lh": "r.u1.z.abs() < 1e-3", "r_look_to": "r.u0.z.abs() < 1e-3",
+    "m1_look_to_rh": "r.u0.z.abs() < 1e-3", "m1_look_at_lh": "r.u1.z.abs() < 1e-3", "a_look_to_rh": "r.u1.z.abs() < 1e-3",
+    "m1_look_to_oblique": "(r.u0.cross(r.u1).length_squared() - 0.05).abs() < 1e-3 || r.u0.z.abs() < 1e-3",
+    "m1_look_at_oblique": "(r.u1.cross(r.u0).length_squared() - 0.05).abs() < 1e-3 || r.u1.z.abs() < 1e-3",
+    "a_look_to_oblique": "(r.u0.cross(r.u1).length_squared() - 0.05).abs() < 1e-3 || r.u0.z.abs() < 1e-3",
+    "q_look_to_oblique": "(r.u0.cross(r.u1).length_squared() - 0.05).abs() < 1e-3 || r.u0.z.abs() < 1e-3",
+    "r_look_to_oblique": "(r.u1.cross(r.u0).length_squared() - 0.05).abs() < 1e-3 || r.u1.z.abs() < 1e-3",
+    "u_normalize": "(r.v0.length_squared() - 1e-4).abs() < 1e-5", "u_try_normalize": "(r.v1.length_squared() - 1e-4).abs() < 1e-5",
+    "u_normalize_or_zero": "(r.v0.length_squared() - 1e-4).abs() < 1e-5", "u_normalize_and_length": "(r.v1.length_squared() - 1e-4).abs() < 1e-5",
+    "v_clamp_length": "(r.v1.length_squared() - 1e-4).abs() < 1e-5", "v_clamp_length_tied": "(r.v1.length_squared() - 1e-4).abs() < 1e-5",
+    "s_next": "((r.s0 * 1.618 + 0.3) / 3.0).fract().abs() < 1e-3 || ((r.s0 * 1.618 + 0.3) / 3.0).fract().abs() > 0.999",
+    "t_next": "(r.t0 * 0.37 + 0.29).fract().abs() < 1e-3 || (r.t0 * 0.37 + 0.29).fract().abs() > 0.999",
+}
 CLASS = {"v": "vec", "u": "unit", "q": "quat", "r": "rot3", "m0": "trs4", "m1": "rigid4", "a": "rigid_affine", "d0": "dquat", "d1": "dunit", "s": "scalar", "t": "scalar", "p": "scalar"}
 def cls(reg):
     return CLASS.get(reg, CLASS.get(reg[0]))
@@ -119,6 +146,11 @@ def main():
     for op, dst, expr in OPS + VIOL:
         rs.append(f'        "{op}" => {{ let x = {expr}; r.{dst} = x; }}')
     rs += ["        _ => return false,", "    }", "    true", "}"]
+    rs += ["", "/// true when the operation is applied inside one of its ill-conditioned regions (see tools/gen_c20.py: ILL)",
+           "pub fn ill_conditioned(op: &str, r: &Regs) -> bool {", "    match op {"]
+    for op, pred in ILL.items():
+        rs.append(f'        "{op}" => {pred},')
+    rs += ["        _ => false,", "    }", "}"]
     rs.append(f"pub const N_OPS: usize = {len(OPS) + len(VIOL)};")
     tla = ["------------------------------- MODULE C20Ops -------------------------------",
            "(* GENERATED by tools/gen_c20.py from the same table as harness/src/chain_gen.rs.                  *)",
